@@ -37,7 +37,7 @@ package rsyncwire
 //@   requires[C17] [frame-limit] tag <= 2 && len(p) <= 262144
 //@   modifies rsyncwire.CountingWriter.BytesWritten, ghost.acc
 //@   at[C17] encoding/binary.Write: assert [header-encoding] data(arg2) == (7 + tag) * 16777216 + len(p)
-//@   ensures[C17] [header-then-payload] err == nil ==> select(ghost.acc, data(w.Writer)) == accApp(accApp(old(select(ghost.acc, data(w.Writer))), valEnc(typeid("uint32"), (7 + tag) * 16777216 + len(p))), bid(p))
+//@   ensures[C17] [header-then-payload] err == nil && !isMW2(data(w.Writer)) ==> select(ghost.acc, data(w.Writer)) == accApp(accApp(old(select(ghost.acc, data(w.Writer))), valEnc(typeid("uint32"), (7 + tag) * 16777216 + len(p))), bid(p))
 
 //@ func (*rsyncwire.MultiplexWriter).Write
 //@   requires[C17] [frame-limit] len(p) <= 262144
